@@ -522,6 +522,16 @@ def runOp (op : String) (args : List String) : String :=
   | "codec.pack", typ :: vals => codecPack typ vals
   | "codec.unpack", [typ, rd] => codecUnpack typ rd
   | "len.rr", typ :: owner :: toks => lenRROp typ owner toks
+  | "msg.len", [m] =>
+    match unhex m with
+    | some msg => (match MU.unpackMsg msg with
+      | some r =>
+        if r.err then "err"
+        else (match Len.lenMsg r false, Len.lenMsg r true with
+          | some a, some b => s!"{a} {b}"
+          | _, _ => "uncovered")
+      | none => "hdr-err")
+    | none => "bad-op"
   | "msg.packc", [m] =>
     match unhex m with
     | some msg => (match MU.unpackMsg msg with
